@@ -238,7 +238,7 @@ PROPS["C01"] = {
     "quick": {"shards": 8, "budget_s": 30, "watchdog_s": 900},
     "thorough": {"shards": 16, "budget_s": 420, "watchdog_s": 3600, "release_pass": {"shards": 16, "budget_s": 90}},
     "floor": {"quick": 5000, "thorough": 50000},
-    "require_counters": {"quick": {"programs_executed": 8000, "cycles_executed": 20000}, "thorough": {"programs_executed": 100000, "evaluations_under_release_semantics": 5000}},
+    "require_counters": {"quick": {"task_bound_fb_cells_executed": 4, "programs_executed": 8000, "cycles_executed": 20000}, "thorough": {"programs_executed": 100000, "evaluations_under_release_semantics": 5000}},
     "rule": _GEN_RULE,
     "level_text": "Every accepted program runs 3-5 cycles in the real runtime built with overflow checks and debug assertions; per cycle the monitor requires outcome in {Ok} u {DivisionByZero, "
                   "ModuloByZero, Overflow, IndexOutOfBounds, NullReference, ForStepZero, DateTimeRange, ExecutionTimeout}, an empty frame stack, no panic; an ExecutionTimeout counts as "
